@@ -1137,3 +1137,186 @@ Definition example_fill : list (track XQ) := q_axis [fr_track 1; fr_track 2; px_
 
 Definition xq_eqb_list (a b : list XQ) : bool :=
   Nat.eqb (length a) (length b) && forallb (fun '(x, y) => x_eqb x y) (combine a b).
+
+(* ==================================================================================================================
+   Termination of find_size_of_fr (exact arithmetic): the hypothetical fr size never increases, so the set of tracks
+   with a positive factor that are treated as flexible shrinks with every restart *)
+Definition track_ok2 (t : track XQ) : Prop := track_fin t /\ 0 <= qb t /\ 0 <= qf t.
+
+Lemma q_sign_pos f : 0 < f -> q_sign f = Gt.
+Proof. intro Hf. unfold q_sign. apply Z.compare_gt_iff. destruct f as [n d]. unfold Qlt in Hf. simpl in *. lia. Qed.
+Lemma q_sign_zero f : f == 0 -> q_sign f = Eq.
+Proof. intro Hf. unfold q_sign. apply Z.compare_eq_iff. destruct f as [n d]. unfold Qeq in Hf. simpl in *. lia. Qed.
+
+Lemma track_ok2_inv t : track_ok2 t -> exists b f, base_size t = Fin b /\ sfn_value (maxf t) = Fin f /\ qb t = b /\ qf t = f /\ 0 <= b /\ 0 <= f.
+Proof.
+  intros [[Hb Hv] [Hb0 Hf0]]. destruct (fin_inv _ Hb) as [b Eb]. destruct (fin_inv _ Hv) as [f Ef].
+  exists b, f. unfold qb, qf in *. rewrite Eb, Ef in *. simpl in *. repeat split; auto.
+Qed.
+
+(* flexible_at for a finite fr size and for the initial +infinity *)
+Lemma flexible_fin t b f hq : base_size t = Fin b -> sfn_value (maxf t) = Fin f ->
+  flexible_at (Fin hq) t = is_fr (maxf t) && Qle_bool b (f * hq).
+Proof. intros Eb Ef. unfold flexible_at. rewrite Eb, Ef. reflexivity. Qed.
+Lemma flexible_inf_pos t b f : base_size t = Fin b -> sfn_value (maxf t) = Fin f -> 0 < f ->
+  flexible_at PInf t = is_fr (maxf t).
+Proof. intros Eb Ef Hf. unfold flexible_at. rewrite Eb, Ef. xq0. simpl. rewrite (q_sign_pos f Hf). simpl. apply andb_true_r. Qed.
+
+Section FrTermination.
+  Variable tracks : list (track XQ).
+  Variable sp : Q.
+  Hypothesis Hok : Forall track_ok2 tracks.
+
+  Lemma Hfin : Forall track_fin tracks.
+  Proof. eapply Forall_impl; [|exact Hok]. intros t [Ht _]. exact Ht. Qed.
+
+  (* the next hypothetical fr size is finite: leftover / max(flex sum, 1) *)
+  Lemma fr_next_fin (h : XQ) :
+    exists q M, fr_next tracks (Fin sp) h = Fin q /\ 1 <= M /\ flex_q h tracks <= M /\ (M == 1 \/ M == flex_q h tracks) /\
+                q * M == sp - used_q h tracks.
+  Proof.
+    unfold fr_next. destruct (fr_sums_fin tracks h Hfin) as [u [s [E1 [E2 E3]]]]. rewrite E1. xq0.
+    destruct (x_max_fin s 1) as [M [EM [M1 [M2 M3]]]]. rewrite EM. cbn [x_sub x_add x_neg].
+    assert (HM : 0 < M) by lra. simpl. rewrite (q_sign_pos M HM).
+    exists ((sp + - u) / M), M. split; [reflexivity|]. repeat split; try lra.
+    rewrite <- E2. field. lra.
+  Qed.
+
+  (* how the two sums move when the fr size goes from hp to a finite hq *)
+  Lemma sums_step (hp : XQ) (hq : Q) (l : list (track XQ)) :
+    Forall track_ok2 l ->
+    (forall t, In t l -> flexible_at (Fin hq) t = true -> flexible_at hp t = true \/ (qf t == 0 /\ qb t == 0)) ->
+    (forall t, In t l -> flexible_at hp t = true -> flexible_at (Fin hq) t = false -> qf t * hq <= qb t) ->
+    let B := used_q (Fin hq) l - used_q hp l in
+    let P := flex_q hp l - flex_q (Fin hq) l in
+    P * hq <= B /\ 0 <= B /\ 0 <= P.
+  Proof.
+    induction l as [|t r IH]; intros Hl H1 H2; cbv zeta.
+    - simpl. lra.
+    - inversion Hl as [|? ? Ht Hr]; subst.
+      destruct IH as [I1 [I2 I3]]; auto; try (intros; first [apply H1 | apply H2]; auto; right; auto).
+      destruct Ht as [_ [Hb Hf]]. cbn [used_q flex_q].
+      destruct (flexible_at (Fin hq) t) eqn:Eh; destruct (flexible_at hp t) eqn:Ep.
+      + lra.
+      + destruct (H1 t (or_introl eq_refl) Eh) as [Hc|[Z1 Z2]]; [congruence|]. nra.
+      + specialize (H2 t (or_introl eq_refl) Ep Eh). nra.
+      + lra.
+  Qed.
+
+  Definition fr_le (hq : Q) (hp : XQ) : Prop := hp = PInf \/ exists hpq, hp = Fin hpq /\ hq <= hpq.
+
+  Lemma step_hyps (hp : XQ) (hq : Q) : fr_le hq hp ->
+    (forall t, In t tracks -> flexible_at (Fin hq) t = true -> flexible_at hp t = true \/ (qf t == 0 /\ qb t == 0)) /\
+    (forall t, In t tracks -> flexible_at hp t = true -> flexible_at (Fin hq) t = false -> qf t * hq <= qb t).
+  Proof.
+    intro Hle. rewrite Forall_forall in Hok. split; intros t Hin.
+    - destruct (track_ok2_inv t (Hok t Hin)) as [b [f [Eb [Ef [Qb [Qf [Hb Hf]]]]]]]. rewrite Qb, Qf.
+      rewrite (flexible_fin t b f hq Eb Ef). intro Hx. apply andb_true_iff in Hx. destruct Hx as [Hfr Hle'].
+      apply Qle_bool_iff in Hle'.
+      destruct (Qlt_le_dec 0 f) as [Hpos|Hz].
+      + left. destruct Hle as [E|[hpq [E Hh]]]; subst hp.
+        * rewrite (flexible_inf_pos t b f Eb Ef Hpos). exact Hfr.
+        * rewrite (flexible_fin t b f hpq Eb Ef), Hfr. simpl. apply Qle_bool_iff. nra.
+      + right. assert (f == 0) by lra. split; [assumption|]. nra.
+    - destruct (track_ok2_inv t (Hok t Hin)) as [b [f [Eb [Ef [Qb [Qf [Hb Hf]]]]]]]. rewrite Qb, Qf.
+      intros Hp. rewrite (flexible_fin t b f hq Eb Ef). pose proof (flexible_is_fr hp t Hp) as Hfr. rewrite Hfr. simpl.
+      intro Hx. apply Qle_bool_false in Hx. lra.
+  Qed.
+
+  (* the fr size does not increase *)
+  Lemma fr_next_mono (hp : XQ) (hq : Q) :
+    fr_next tracks (Fin sp) hp = Fin hq -> fr_le hq hp ->
+    exists hq', fr_next tracks (Fin sp) (Fin hq) = Fin hq' /\ hq' <= hq.
+  Proof.
+    intros En Hle.
+    destruct (fr_next_fin hp) as [q [M [E1 [M1 [M2 [M3 M4]]]]]]. rewrite En in E1. inversion E1; subst q.
+    destruct (fr_next_fin (Fin hq)) as [q' [M' [E1' [M1' [M2' [M3' M4']]]]]].
+    exists q'. split; [exact E1'|].
+    destruct (step_hyps hp hq Hle) as [H1 H2].
+    destruct (sums_step hp hq tracks Hok H1 H2) as [S1 [S2 S3]].
+    set (B := used_q (Fin hq) tracks - used_q hp tracks) in *.
+    set (P := flex_q hp tracks - flex_q (Fin hq) tracks) in *.
+    assert (EB : B == used_q (Fin hq) tracks - used_q hp tracks) by reflexivity.
+    assert (EP : P == flex_q hp tracks - flex_q (Fin hq) tracks) by reflexivity.
+    clearbody B P.
+    assert (Hq' : q' * M' == hq * M - B) by lra.
+    assert (HMM : M' <= M /\ M - M' <= P).
+    { destruct M3 as [M3|M3], M3' as [M3'|M3']; split; lra. }
+    destruct HMM as [HM1 HM2].
+    assert (Hkey : hq * (M - M') <= B).
+    { destruct (Qlt_le_dec hq 0) as [Hn|Hp].
+      - assert (hq * (M - M') <= 0) by nra. lra.
+      - assert (hq * (M - M') <= hq * P) by nra. lra. }
+    assert (q' * M' <= hq * M') by lra.
+    assert (0 < M') by lra. nra.
+  Qed.
+
+  (* positive-factor tracks treated as flexible *)
+  Definition posflex (h : XQ) (t : track XQ) : bool := x_ltb (Fin 0) (sfn_value (maxf t)) && flexible_at h t.
+  Definition mflex (h : XQ) : nat := length (filter (posflex h) tracks).
+
+  Lemma filter_count_lt {A} (p q : A -> bool) l :
+    (forall x, In x l -> p x = true -> q x = true) -> (exists x, In x l /\ q x = true /\ p x = false) ->
+    (length (filter p l) < length (filter q l))%nat.
+  Proof.
+    intros H1 H2. rewrite <- (map_id l) at 1. apply (filter_map_count_lt p q (fun x => x)); auto.
+  Qed.
+
+  Lemma forallb_false_ex {A} (p : A -> bool) l : forallb p l = false -> exists x, In x l /\ p x = false.
+  Proof.
+    induction l as [|a l IH]; simpl; [discriminate|]. intro Hx. apply andb_false_iff in Hx. destruct Hx as [Hx|Hx].
+    - exists a. auto.
+    - destruct (IH Hx) as [x [Hin Hp]]. exists x. auto.
+  Qed.
+
+  Lemma posflex_mono (hp : XQ) (hq : Q) t : In t tracks -> fr_le hq hp -> posflex (Fin hq) t = true -> posflex hp t = true.
+  Proof.
+    intros Hin Hle Hx. unfold posflex in *. apply andb_true_iff in Hx. destruct Hx as [Hpos Hfl]. rewrite Hpos. simpl.
+    destruct (step_hyps hp hq Hle) as [H1 _]. destruct (H1 t Hin Hfl) as [Hc|[Z _]]; [exact Hc|].
+    rewrite Forall_forall in Hok. destruct (track_ok2_inv t (Hok t Hin)) as [b [f [Eb [Ef [Qb [Qf _]]]]]].
+    rewrite Ef in Hpos. apply x_ltb_fin in Hpos. rewrite Qf in Z. lra.
+  Qed.
+
+  (* a restart with a finite previous size removes a positive-factor track from the flexible set *)
+  Lemma invalid_decreases (hpq hq : Q) : hq <= hpq -> fr_valid tracks (Fin hpq) (Fin hq) = false ->
+    (mflex (Fin hq) < mflex (Fin hpq))%nat.
+  Proof.
+    intros Hle Hinv. unfold mflex. apply filter_count_lt.
+    - intros t Hin. apply posflex_mono; auto. right. exists hpq. auto.
+    - unfold fr_valid in Hinv. apply forallb_false_ex in Hinv. destruct Hinv as [t [Hin Ex]]. xq0.
+      exists t. split; [exact Hin|].
+      rewrite Forall_forall in Hok. destruct (track_ok2_inv t (Hok t Hin)) as [b [f [Eb [Ef [Qb [Qf [Hb Hf]]]]]]].
+      destruct (is_fr (maxf t)) eqn:Efr; [|discriminate]. rewrite Eb, Ef in Ex. apply orb_false_iff in Ex. destruct Ex as [X1 X2].
+      cbn [x_mul] in X1, X2. apply x_leb_fin_false in X1. apply x_ltb_fin_false in X2.
+      assert (Hfpos : 0 < f).
+      { destruct (Qlt_le_dec 0 f) as [Hp|Hz]; [exact Hp|]. assert (f == 0) by lra. nra. }
+      assert (Hp1 : x_ltb (Fin 0) (Fin f) = true) by (apply x_ltb_fin; exact Hfpos).
+      unfold posflex. rewrite Ef, Hp1, (flexible_fin t b f hpq Eb Ef), (flexible_fin t b f hq Eb Ef), Efr. simpl.
+      split.
+      + apply Qle_bool_iff. lra.
+      + apply Qle_bool_false. lra.
+  Qed.
+
+  Lemma mflex_le (h : XQ) : (mflex h <= length tracks)%nat.
+  Proof. unfold mflex. clear. induction tracks as [|a l IH]; simpl; [lia|]. destruct (posflex h a); simpl; lia. Qed.
+
+  Lemma fr_loop_ok fuel : forall hpq, (exists hq, fr_next tracks (Fin sp) (Fin hpq) = Fin hq /\ hq <= hpq) ->
+    (mflex (Fin hpq) < fuel)%nat -> snd (fr_loop fuel tracks (Fin sp) (Fin hpq)) = true.
+  Proof.
+    induction fuel as [|f IH]; intros hpq [hq [En Hle]] Hm; [lia|].
+    cbn [fr_loop]. rewrite En. destruct (fr_valid tracks (Fin hpq) (Fin hq)) eqn:Ev; [reflexivity|].
+    apply IH.
+    - apply (fr_next_mono (Fin hpq) hq En). right. exists hpq. auto.
+    - pose proof (invalid_decreases hpq hq Hle Ev). lia.
+  Qed.
+
+  Theorem fr_terminates : snd (fr_exit tracks (Fin sp)) = true.
+  Proof.
+    unfold fr_exit, fr_fuel. replace (length tracks + 2)%nat with (S (length tracks + 1)) by lia. cbn [fr_loop]. xq0.
+    destruct (fr_next_fin PInf) as [q [M [E1 _]]]. rewrite E1.
+    destruct (fr_valid tracks PInf (Fin q)); [reflexivity|].
+    apply fr_loop_ok.
+    - apply (fr_next_mono PInf q E1). left. reflexivity.
+    - pose proof (mflex_le (Fin q)). lia.
+  Qed.
+End FrTermination.
